@@ -343,7 +343,7 @@ def invariant(ctx, cfg, fs):
     # ArgRangesIter: ParseAdjacent narrows the scope to `start..scope.end` for every start it is given, so a start
     # beyond the end of the scope would slice the ledger with an inverted range
     it = ctx.look(fs.one(r"^<args::inner::ArgRangesIter<'a> as std::iter::Iterator>::next$"))
-    somes = [i for i, k, st in it.stmts() if st['k'] == 'assign' and st['lhs'] == [0, []] and st['rv']['k'] == 'agg' and st['rv'].get('variant') == 'Some']
+    somes = value_sites(it, 'Some')
     guards = []
     for sw in switches(it):
         if sw.kind != 'bool': continue
